@@ -114,9 +114,11 @@ theorem C13_steps_taken (p : Prog) (maxSteps : Nat) :
     values and agent-level values all come from one collection `sn` of the model stepped by hand: the label
     is the step at which `sn` was taken, the model values are the model reporters evaluated on `sn`, and the
     agent part — for a model that collects at most once per step value (C13's quantifier: at construction
-    and/or inside step) — is the id and the reporter values of an agent registered in `sn`. -/
+    and/or inside step) — is the id and the reporter values of an agent registered in `sn`.  `Total`: the
+    reporters never raise (C13's quantifier); the last example of this file shows what a collect that raised
+    and was swallowed by the model does to the rows. -/
 theorem C13_rows_from_one_collection (cls : Kwargs κ → Prog) (maxSteps : Nat) (period : Int) (r : Run κ)
-    (rows : List (BRow κ)) (h : runRows cls maxSteps period r = .ok rows) :
+    (hT : Total (cls r.kwargs).cfg) (rows : List (BRow κ)) (h : runRows cls maxSteps period r = .ok rows) :
     ∃ k ≤ maxSteps,
       let p := cls r.kwargs
       let snaps := storedSnaps p.cfg (Collect.init p.cfg p.tables) (histOf p k)
@@ -129,7 +131,7 @@ theorem C13_rows_from_one_collection (cls : Kwargs κ → Prog) (maxSteps : Nat)
     intro e
     subst e
     simp [runRows, picks] at h
-  obtain ⟨k, hk, he, hh⟩ := holds_runModel (cls r.kwargs) maxSteps
+  obtain ⟨k, hk, he, hh⟩ := holds_runModel (cls r.kwargs) hT maxSteps
   refine ⟨k, hk, he, ?_⟩
   obtain ⟨ps, hps, hr⟩ := runRows_of_holds cls maxSteps period hp r _ hh
   rw [hr] at h
@@ -162,7 +164,7 @@ theorem C13_rows_from_one_collection (cls : Kwargs κ → Prog) (maxSteps : Nat)
 /-- The run's last collected state is reported: if the model stepped by hand collected at all, some row
     carries the step label and the model values of its last collection (for every period ≠ 0). -/
 theorem C13_last_state_reported (cls : Kwargs κ → Prog) (maxSteps : Nat) (period : Int) (r : Run κ)
-    (rows : List (BRow κ)) (h : runRows cls maxSteps period r = .ok rows) :
+    (hT : Total (cls r.kwargs).cfg) (rows : List (BRow κ)) (h : runRows cls maxSteps period r = .ok rows) :
     ∃ k ≤ maxSteps,
       let p := cls r.kwargs
       let snaps := storedSnaps p.cfg (Collect.init p.cfg p.tables) (histOf p k)
@@ -173,7 +175,7 @@ theorem C13_last_state_reported (cls : Kwargs κ → Prog) (maxSteps : Nat) (per
     intro e
     subst e
     simp [runRows, picks] at h
-  obtain ⟨k, hk, he, hh⟩ := holds_runModel (cls r.kwargs) maxSteps
+  obtain ⟨k, hk, he, hh⟩ := holds_runModel (cls r.kwargs) hT maxSteps
   refine ⟨k, hk, he, ?_⟩
   intro sn hlast
   generalize hs : storedSnaps (cls r.kwargs).cfg (Collect.init (cls r.kwargs).cfg (cls r.kwargs).tables)
@@ -207,7 +209,7 @@ theorem C13_reported_collections (n : Nat) (period : Int) (hp : period ≠ 0) :
 section Example
 def exCls (kw : Kwargs Nat) : Prog :=
   let n := (kw.lookup 0).getD 0
-  { cfg := { mreps := [.fn fun sn => .int sn.steps], areps := [.attr 0], treps := [],
+  { cfg := { mreps := [.fn fun sn => .ok (.int sn.steps)], areps := [.attr 0], treps := [],
              isAgentClass := fun _ => true, isSub := fun a b => a == b },
     tables := [], init := [.create 0 [(0, .int n)], .collect],
     body := [.aset 1 0 (.int 9), .collect, .stopAt n] }
@@ -219,6 +221,19 @@ example : (batchRun exCls [(0, PVal.sized [1, 5])] 1 3 (-1)).toOption.map (·.ma
     some [(0, 1, [.int 1], some (1, [.int 9])), (1, 3, [.int 3], some (1, [.int 9]))] := by rfl
 example : (batchRun exCls [(0, PVal.scalar 5)] 1 3 2).toOption.map (·.map fun b => (b.step, b.agent)) =
     some [(0, some (1, [.int 5])), (2, some (1, [.int 9])), (3, some (1, [.int 9]))] := by rfl
+/-! outside the quantifier: a `functools.partial` reporter that raises while attribute 0 is missing, in a model
+    whose step swallows the exception of its collect.  The first collect (step 1) leaves `m0 = [1]` and nothing
+    else; from then on position `i` of `m0` belongs to collection `i - 1` of `m1`: rows pair the model values of
+    two different collections, and the Step label is that of the later one. -/
+def exRaise (_ : Kwargs Nat) : Prog :=
+  { cfg := { mreps := [.fn fun sn => .ok (.int sn.steps),
+                       .part fun sn => match sn.attrs.lookup 0 with | some v => .ok v | none => .error .attr],
+             areps := [], treps := [], isAgentClass := fun _ => true, isSub := fun a b => a == b },
+    tables := [], init := [], body := [.collect, .mset 0 (.int 7)] }
+example : (runModel (exRaise []) 3).modelVars = [[.int 1, .int 2, .int 3], [.int 7, .int 7]] := by decide
+example : (runModel (exRaise []) 3).collSteps = [2, 3] := by decide
+example : (batchRun exRaise ([] : List (Nat × PVal Nat)) 1 3 1).toOption.map (·.map fun b => (b.step, b.model)) =
+    some [(2, [.int 1, .int 7]), (3, [.int 2, .int 7])] := by rfl
 end Example
 
 end Mesa.Batch
